@@ -411,3 +411,39 @@ def rederive(obj, m, how="translation*"):
     if how == "+point":
         return away + G.Point(*m)
     return G.translation(*m) * away
+
+
+# ------------------------------------------------------------------------------------------- a non-convex polyhedron
+def l_block(A, A2, B1, B, H):
+    """L-shaped block: union of the boxes [0, A] x [0, B1] x [0, H] and [0, A2] x [B1, B] x [0, H] (0 < A2 < A, 0 < B1 < B), as ten rectangles
+    -> list of (axis, value, ((lo, hi), (lo, hi)) ranges on the two other axes in increasing axis order, four vertices in cyclic order)"""
+    faces = []
+
+    def rect(axis, val, r1, r2):
+        o = [k for k in range(3) if k != axis]
+        vs = []
+        for u, w in ((r1[0], r2[0]), (r1[1], r2[0]), (r1[1], r2[1]), (r1[0], r2[1])):
+            p = [0, 0, 0]
+            p[axis], p[o[0]], p[o[1]] = val, u, w
+            vs.append(p)
+        faces.append((axis, val, (r1, r2), vs))
+
+    for z in (0, H):
+        rect(2, z, (0, A), (0, B1))
+        rect(2, z, (0, A2), (B1, B))
+    rect(1, 0, (0, A), (0, H))
+    rect(0, A, (0, B1), (0, H))
+    rect(1, B1, (A2, A), (0, H))
+    rect(0, A2, (B1, B), (0, H))
+    rect(1, B, (0, A2), (0, H))
+    rect(0, 0, (0, B), (0, H))
+    return faces
+
+
+def in_l_block(p, A, A2, B1, B, H, strict=True):
+    x, y, z = p
+    lt = (lambda a, b: a < b) if strict else (lambda a, b: a <= b)
+    if not (lt(0, z) and lt(z, H)):
+        return False
+    return (lt(0, x) and lt(x, A) and lt(0, y) and lt(y, B1)) or (lt(0, x) and lt(x, A2) and lt(0, y) and lt(y, B)) if strict else \
+        ((0 <= x <= A and 0 <= y <= B1) or (0 <= x <= A2 and B1 <= y <= B))
